@@ -40,7 +40,7 @@ EXTENDS Integers, Sequences, FiniteSets, TLC, Json
 PC == INSTANCE PrintConc WITH
         ModulePrinters <- {}, FuncPrinters <- {}, BlockPrinters <- {}, NG <- 0, NF <- 0, NL <- 0, MdCase <- 0,
         WriteOnlyIfChanged <- TRUE, StartPrinted <- TRUE, CachePrefilled <- TRUE,
-        LockGlobals <- TRUE, LockLocals <- TRUE, GCachePrefilled <- TRUE, FillGlobalCachesUnderLock <- FALSE, SharedScratch <- FALSE,
+        LockGlobals <- TRUE, LockLocals <- TRUE, GCachePrefilled <- TRUE, FillGlobalCachesUnderLock <- FALSE, SharedScratch <- FALSE, StaleLocals <- FALSE, Orphans <- {}, LockViaParent <- FALSE,
         gid <- <<>>, mid <- <<>>, lid <- <<>>, typ <- <<>>, gtyp <- <<>>, scratch <- 0, mmu <- 0, fmu <- <<>>, bad <- <<>>,
         pc <- <<>>, c <- <<>>, f <- <<>>, last <- <<>>, tmp <- <<>>
 
